@@ -223,13 +223,13 @@ theorem stepOutcomeH2_false (f : H2Facts) (c : StepCfg) (r : Reply) : stepOutcom
   simp [stepOutcomeH2]
 
 /-- the scenario loop panics exactly when it sends a request the http2 client panics on -/
-theorem shootScenarioH2_panicked (h2 : Bool) (f : H2Facts) (scn : String) (steps : List (StepCfg × Reply)) :
-    (shootScenario scn (steps.map fun (c, r) => { name := c.name, outcome := stepOutcomeH2 h2 f c r })).panicked
-      = scenarioFatal h2 f steps := by
+theorem shootScenarioH2_panicked (h2 : Bool) (scn : String) (steps : List (StepCfg × H2Facts × Reply)) :
+    (shootScenario scn (steps.map fun (c, f, r) => { name := c.name, outcome := stepOutcomeH2 h2 f c r })).panicked
+      = scenarioFatal h2 steps := by
   induction steps with
   | nil => simp [shootScenario, scenarioFatal]
   | cons p rest ih =>
-    obtain ⟨c, r⟩ := p
+    obtain ⟨c, f, r⟩ := p
     by_cases hp : (!c.prepFails && (h2 && h2Panics f r)) = true
     · have hs : stepOutcomeH2 h2 f c r = .received 0 .panic := by simp only [stepOutcomeH2, hp, if_true]
       simp only [List.map_cons, shootScenario, scenarioFatal, stepHttp, hs, hp, if_true]
@@ -246,14 +246,14 @@ theorem shootScenarioH2_panicked (h2 : Bool) (f : H2Facts) (scn : String) (steps
         | panic => exact absurd ho (stepOutcome_no_panic c r st)
 
 /-- outside the fatal condition the http2/scenario gun behaves like the http/scenario gun -/
-theorem scenario_map_eq_of_not_fatal (h2 : Bool) (f : H2Facts) (steps : List (StepCfg × Reply))
-    (h : scenarioFatal h2 f steps = false) (scn : String) :
-    shootScenario scn (steps.map fun (c, r) => { name := c.name, outcome := stepOutcomeH2 h2 f c r })
-      = shootScenario scn (steps.map fun (c, r) => { name := c.name, outcome := stepOutcome c r }) := by
+theorem scenario_map_eq_of_not_fatal (h2 : Bool) (steps : List (StepCfg × H2Facts × Reply))
+    (h : scenarioFatal h2 steps = false) (scn : String) :
+    shootScenario scn (steps.map fun (c, f, r) => { name := c.name, outcome := stepOutcomeH2 h2 f c r })
+      = shootScenario scn (steps.map fun (c, _, r) => { name := c.name, outcome := stepOutcome c r }) := by
   induction steps with
   | nil => rfl
   | cons p rest ih =>
-    obtain ⟨c, r⟩ := p
+    obtain ⟨c, f, r⟩ := p
     by_cases hp : (!c.prepFails && (h2 && h2Panics f r)) = true
     · simp only [scenarioFatal, hp, if_true] at h
       exact absurd h (by decide)
@@ -273,11 +273,11 @@ theorem scenario_map_eq_of_not_fatal (h2 : Bool) (f : H2Facts) (steps : List (St
         | err => rfl
         | panic => rfl
 
-theorem scenarioFatal_false (f : H2Facts) (steps : List (StepCfg × Reply)) : scenarioFatal false f steps = false := by
+theorem scenarioFatal_false (steps : List (StepCfg × H2Facts × Reply)) : scenarioFatal false steps = false := by
   induction steps with
   | nil => rfl
   | cons p rest ih =>
-    obtain ⟨c, r⟩ := p
+    obtain ⟨c, f, r⟩ := p
     simp only [scenarioFatal, Bool.false_and, Bool.and_false, Bool.false_eq_true, if_false]
     split
     · exact ih
@@ -305,18 +305,18 @@ theorem stepCompleted_prep (c : StepCfg) (r : Reply) (h : stepCompleted c r = tr
 
 /-- the http2/scenario gun is in the fatal condition iff the first request it sends to a peer without HTTP/2 is
 reached: all steps before it completed (and, being completed, were not themselves such requests) -/
-theorem scenarioFatal_true_iff (f : H2Facts) (steps : List (StepCfg × Reply)) :
-    scenarioFatal true f steps = true ↔
-      ∃ (i : Nat) (p : StepCfg × Reply), steps[i]? = some p ∧ p.1.prepFails = false ∧ h2Panics f p.2 = true ∧
-        ∀ j, j < i → ∃ q, steps[j]? = some q ∧ stepCompleted q.1 q.2 = true ∧ h2Panics f q.2 = false := by
+theorem scenarioFatal_true_iff (steps : List (StepCfg × H2Facts × Reply)) :
+    scenarioFatal true steps = true ↔
+      ∃ (i : Nat) (p : StepCfg × H2Facts × Reply), steps[i]? = some p ∧ p.1.prepFails = false ∧ h2Panics p.2.1 p.2.2 = true ∧
+        ∀ j, j < i → ∃ q, steps[j]? = some q ∧ stepCompleted q.1 q.2.2 = true ∧ h2Panics q.2.1 q.2.2 = false := by
   induction steps with
   | nil => simp [scenarioFatal]
   | cons p rest ih =>
-    obtain ⟨c, r⟩ := p
+    obtain ⟨c, f, r⟩ := p
     by_cases hp : (!c.prepFails && (true && h2Panics f r)) = true
     · simp only [scenarioFatal, hp, if_true, true_iff]
       simp only [Bool.true_and, Bool.and_eq_true, Bool.not_eq_true'] at hp
-      exact ⟨0, (c, r), rfl, hp.1, hp.2, fun j hj => absurd hj (Nat.not_lt_zero j)⟩
+      exact ⟨0, (c, f, r), rfl, hp.1, hp.2, fun j hj => absurd hj (Nat.not_lt_zero j)⟩
     · simp only [scenarioFatal, hp, Bool.false_eq_true, if_false]
       have hp' : ¬ (c.prepFails = false ∧ h2Panics f r = true) := by
         simpa [Bool.and_eq_true] using hp
@@ -338,7 +338,7 @@ theorem scenarioFatal_true_iff (f : H2Facts) (steps : List (StepCfg × Reply)) :
             intro j hj
             cases j with
             | zero =>
-              refine ⟨(c, r), rfl, hc, ?_⟩
+              refine ⟨(c, f, r), rfl, hc, ?_⟩
               cases hh : h2Panics f r with
               | false => rfl
               | true => exact absurd ⟨stepCompleted_prep c r hc, hh⟩ hp'
@@ -374,9 +374,9 @@ theorem run_panicked_iff (g : GunShot) : g.run.panicked = g.documentedFatal := b
       | noResponse e => simp [Reply.httpOutcome, shootHttp]
       | brokenBody st e => simp [Reply.httpOutcome, shootHttp]
       | full r => simp [Reply.httpOutcome, shootHttp]
-  | scenario h2 facts scn steps =>
+  | scenario h2 scn steps =>
     simp only [GunShot.run, GunShot.documentedFatal]
-    exact shootScenarioH2_panicked h2 facts scn steps
+    exact shootScenarioH2_panicked h2 scn steps
   | grpc tag o => simp [GunShot.run, GunShot.documentedFatal, shootGrpc]
   | grpcScenario scn calls =>
     simp only [GunShot.run, GunShot.documentedFatal]
@@ -449,14 +449,14 @@ theorem poolSamples_all (insts : List (List ShotResult)) (h : ∀ shots ∈ inst
 /-! ### what the samples of a scenario carry -/
 
 /-- with steps that cannot panic, the scenario gun reports exactly the samples of the steps its loop enters -/
-theorem shootScenario_reports (scn : String) (steps : List (StepCfg × Reply)) :
-    (shootScenario scn (steps.map fun (c, r) => { name := c.name, outcome := stepOutcome c r })).reports
-      = ((steps.take (executedSteps (steps.map fun (c, r) => { name := c.name, outcome := stepOutcome c r }))).map
-          fun (c, r) => sampleOfStep scn c r) := by
+theorem shootScenario_reports (scn : String) (steps : List (StepCfg × H2Facts × Reply)) :
+    (shootScenario scn (steps.map fun (c, _, r) => { name := c.name, outcome := stepOutcome c r })).reports
+      = ((steps.take (executedSteps (steps.map fun (c, _, r) => { name := c.name, outcome := stepOutcome c r }))).map
+          fun (c, _, r) => sampleOfStep scn c r) := by
   induction steps with
   | nil => simp [shootScenario, executedSteps]
   | cons p rest ih =>
-    obtain ⟨c, r⟩ := p
+    obtain ⟨c, f, r⟩ := p
     simp only [List.map_cons, shootScenario, executedSteps, stepHttp, sampleOfStep]
     cases ho : stepOutcome c r with
     | prepErr => simp [ho]
@@ -523,5 +523,54 @@ theorem shootGrpcScenario_reports (scn : String) (calls : List (GrpcCallCfg × G
         simp [Nat.add_comm 1, List.take_succ_cons, sampleOfCall, ho]
       | err => simp [ho]
       | panic => exact absurd ho (grpcStepOutcome_no_panic c r code)
+
+/-! ### the connections an http2 client meets -/
+
+theorem h2Panics_default (r : Reply) : h2Panics {} r = false := by
+  cases r <;> simp [h2Panics, H2Facts.alpnAlert, DoErrFacts.panics, checkHTTP2, nextProtoTLS]
+
+theorem connNext_not_fatal (dka : Bool) (dflt : ConnFate) (hd : dflt.fatal = false) (isOpen : Bool)
+    (plan : List ConnFate) (hp : ∀ c ∈ plan, c.fatal = false) (r : Reply) :
+    h2Panics (connNext dka dflt isOpen plan r).1.1 (connNext dka dflt isOpen plan r).1.2 = false ∧
+      ∀ c ∈ (connNext dka dflt isOpen plan r).2.2, c.fatal = false := by
+  have htail : ∀ c ∈ plan.tail, c.fatal = false := fun c hc => hp c (List.mem_of_mem_tail hc)
+  unfold connNext
+  cases isOpen with
+  | true => exact ⟨by simpa using h2Panics_default r, by simpa using hp⟩
+  | false =>
+    have hhead : (plan.headD dflt).fatal = false := by
+      cases plan with
+      | nil => simpa using hd
+      | cons c cs => simpa using hp c (List.mem_cons_self ..)
+    simp only [Bool.false_eq_true, if_false]
+    cases hc : plan.headD dflt with
+    | h2 => exact ⟨h2Panics_default r, htail⟩
+    | noH2 t =>
+      rw [hc] at hhead
+      have ht : checkHTTP2 t = true := by simpa [ConnFate.fatal] using hhead
+      refine ⟨?_, htail⟩
+      cases r <;> simp [h2Panics, H2Facts.alpnAlert, DoErrFacts.panics, ht]
+    | fails e =>
+      rw [hc] at hhead
+      exact ⟨by simpa [h2Panics, H2Facts.alpnAlert, ConnFate.fatal] using hhead, htail⟩
+
+/-- over connections none of which is of the fatal kind, no request meets the documented fatal condition; and every
+request gets its turn -/
+theorem connShots_not_fatal (dka : Bool) (dflt : ConnFate) (hd : dflt.fatal = false) (replies : List Reply) :
+    ∀ (isOpen : Bool) (plan : List ConnFate), (∀ c ∈ plan, c.fatal = false) →
+      (connShots dka dflt isOpen plan replies).length = replies.length ∧
+      ∀ p ∈ connShots dka dflt isOpen plan replies, h2Panics p.1 p.2 = false := by
+  induction replies with
+  | nil => intro o plan _; simp [connShots]
+  | cons r rs ih =>
+    intro o plan hp
+    obtain ⟨h1, h2⟩ := connNext_not_fatal dka dflt hd o plan hp r
+    obtain ⟨hl, hm⟩ := ih (connNext dka dflt o plan r).2.1 (connNext dka dflt o plan r).2.2 h2
+    refine ⟨by simp [connShots, hl], ?_⟩
+    intro p hpm
+    simp only [connShots, List.mem_cons] at hpm
+    rcases hpm with rfl | hpm
+    · exact h1
+    · exact hm p hpm
 
 end Pandora.Proofs.C19
